@@ -119,7 +119,7 @@ def run(ctx):
 
     @given(regcommon.reg_cases(max_nodes=7, max_ops=3, faults=False, det_share=0, disturb_last=True))
     def test(case):
-        check_case(ctx, case)
+        runner.guarded(ctx, check_case, case)
 
     runner.drive(ctx, test, n)
 
@@ -127,7 +127,7 @@ def run(ctx):
 def replay(ctx, case):
     only = case.get("k")
     try:
-        check_case(ctx, case["case"], record=False, only=only)
+        runner.guarded(ctx, check_case, case["case"], record=False, only=only)
     except runner.Violation as v:
         return v.msg
     return None
